@@ -83,7 +83,7 @@ Proof. vm_compute. split; reflexivity. Qed.
 
 (* the PLURAL entry point set_properties(name=...) is not covered by the uniqueness check of 6648cd3 *)
 Definition w_setprops_op : op := OSetProp (RNode (S "b")) PNames (S "n1").
-Definition flags_rename_only : flags := mkFlags true true true true true true true false.
+Definition flags_rename_only : flags := mkFlags true true true true true true true false true true.
 Lemma set_properties_name_refuted :
   let g := run_hist false flags_rename_only empty_graph w_rename_hist in
   WF g /\ ~ WF (fst (step false flags_rename_only g w_setprops_op [] [])) /\
@@ -94,3 +94,42 @@ Proof.
   split; [apply wf_b_reflect; vm_compute; reflexivity|]. split; [apply not_WF_by_b; vm_compute; reflexivity|].
   vm_compute. repeat split.
 Qed.
+
+(* ---- round 5: three more entry points ------------------------------------------------------------------------------- *)
+(* the library at HEAD e12ad6f: every landed repair, not the proposed C07-9 / C07-10 *)
+Definition flags_head : flags := mkFlags true true true true true true true true false false.
+
+(* add_link handed two Node objects: the graph layer only looks whether the ids exist, the Link joins two NetworkNodes *)
+Definition w_linknodes_op : op := OAddLink (S "l1") (Some (S "l")) (S "Patch") [S "a"; S "b"].
+Lemma add_link_non_interfaces_refuted :
+  let g := run_hist false flags_head empty_graph w_rename_hist in
+  WF g /\ ~ WF (fst (step false flags_head g w_linknodes_op [] [])) /\
+  snd (step false flags_head g w_linknodes_op [] []) = None /\
+  step false flags_on g w_linknodes_op [] [] = (g, Some ETopology).
+Proof.
+  split; [apply wf_b_reflect; vm_compute; reflexivity|]. split; [apply not_WF_by_b; vm_compute; reflexivity|].
+  vm_compute. repeat split.
+Qed.
+
+(* disconnect_interface handed the service's own peering port: the other service's port and the link go, the port
+   itself stays without peer *)
+Definition w_discpeer_hist : list hstep :=
+  [(OAddNS (S "sA") (Some (S "a")) (S "L2Bridge") [], [], []); (OAddNS (S "sB") (Some (S "b")) (S "L2Bridge") [], [], []);
+   (OPeer (S "a") (S "b"), [S "p1"; S "p2"; S "l1"], [])].
+Definition w_discpeer_op : op := ODisconnect (S "a") (S "p1").
+Lemma disconnect_peering_port_refuted :
+  let g := run_hist false flags_head empty_graph w_discpeer_hist in
+  WF g /\ ~ WF (fst (step false flags_head g w_discpeer_op [] [])) /\
+  snd (step false flags_head g w_discpeer_op [] []) = None /\
+  step false flags_on g w_discpeer_op [] [] = (g, Some ETopology).
+Proof.
+  split; [apply wf_b_reflect; vm_compute; reflexivity|]. split; [apply not_WF_by_b; vm_compute; reflexivity|].
+  vm_compute. repeat split.
+Qed.
+
+(* add_interface through the handle of a service that is gone: the interface node is added, the owner edge fails, an
+   interface without owner stays (add_interface_sliver; the atomicity side is C09's) *)
+Definition w_stale_op : op := OStaleAddIface (S "gone") (S "p1") (Some (S "x")) (S "TrunkPort").
+Lemma stale_add_interface_refuted :
+  forall fl, ~ WF (fst (step false fl empty_graph w_stale_op [] [])) /\ snd (step false fl empty_graph w_stale_op [] []) = Some EQuery.
+Proof. intro fl. split; [apply not_WF_by_b; vm_compute; reflexivity | vm_compute; reflexivity]. Qed.
